@@ -9,6 +9,7 @@ from proxyreal import Proxy, fbur, key_event, pointer_event, set_encodings, set_
 
 from vncdotool import loggingproxy as lp
 
+EXTRA_VO = ["Proofs/RecorderDispatchTie.vo"]
 TRUSTED_BASE = ["Model/Recorder.v hand-written transliteration of loggingproxy.RFBServer and the recorder formatting; TYPE_LEN, "
                 "REVERSE_MAP, message numbers and struct formats regenerated", "loggingproxy.time is replaced by a virtual clock in "
                 "ticks of 1e-4 s ('%.4f' of such differences is exact)"]
